@@ -913,7 +913,8 @@ def overlap_key_rule(ctx, d7):
     # the sequence the cached value is computed from: inside the loop that fills the stored list, X = SEQ[<loop var>]
     seqs = set()
     for lp in [n for n in walk_no_nested(f.node) if isinstance(n, ast.For)]:
-        fills = any(isinstance(x, ast.Subscript) and isinstance(x.ctx, ast.Store) and src(x.value) in stored for x in ast.walk(lp))
+        fills = any(isinstance(x, ast.Subscript) and isinstance(x.ctx, ast.Store) and src(x.value) in stored for x in ast.walk(lp)) \
+            or any(isinstance(x, ast.Call) and isinstance(x.func, ast.Attribute) and x.func.attr == 'append' and src(x.func.value) in stored for x in ast.walk(lp))
         if not fills:
             continue
         # the sequence walked: for i in range(len(SEQ)): X = SEQ[i]  |  for i, X in enumerate(SEQ)  |  for X in SEQ
@@ -958,6 +959,10 @@ def overlap_key_rule(ctx, d7):
             if isinstance(x, ast.Subscript) and isinstance(x.ctx, ast.Load) and isinstance(x.value, ast.Name) and x.value.id in defs \
                     and isinstance(defs[x.value.id], ast.Attribute) and src(defs[x.value.id]).endswith('._index'):
                 tables.add(src(defs[x.value.id].value))
+            # ... or the name table addressed directly (no local alias)
+            if isinstance(x, ast.Subscript) and isinstance(x.ctx, ast.Load) and isinstance(x.value, ast.Attribute) and x.value.attr == '_index' \
+                    and isinstance(x.value.value, ast.Name):
+                tables.add(src(x.value.value))
     if len(owners) == 1 and len(tables) == 1:
         if owners == tables:
             d7.ok('index_overlap', 'the memo is kept on %s, the object whose name table the cached positions are looked up in' % owners.pop(), f)
